@@ -511,21 +511,75 @@ def hunt2_rules(chk, repo):
         chk.violation("C05.once.sent", fr, "await prepare_meth(request); await resp.write_eof()", "if resp._eof_sent and request.writer.output_size == 0: answer 500",
                       "a handler that returns a cached, already sent Response: prepare() and write_eof() return early because _eof_sent is set, finish_response() reports success and the connection is kept alive - 0 bytes sent, request unanswered, no handler running until the keep-alive timeout")
     # ---- C05.errtext: request text reaches an HTTPException text only escaped -----------------------------------------------------------------------
-    eh = repo.func(UD_, "_default_expect_handler")
-    for r, cname in K.raises_in(eh):
-        call = r.exc if isinstance(r.exc, ast.Call) else None
-        if call is None or not any(k.arg == "text" for k in call.keywords):
-            continue
-        txt = next(k.value for k in call.keywords if k.arg == "text")
-        names = {x.id for x in ast.walk(txt) if isinstance(x, ast.Name)}
-        defs = norm.fn_defs(eh.node).defs
-        raw_hdr = [nm for nm in names if any(v is not None and "headers" in norm.raw(v) for _d, v in defs.get(nm, []))]
-        escaped = all(any(v is not None and "backslashreplace" in norm.raw(v) for _d, v in defs.get(nm, [])) for nm in raw_hdr) or "%r" in norm.raw(txt) or "!r" in norm.raw(txt)
-        if not raw_hdr or escaped:
-            chk.ok("C05.errtext", r, f"{cname}: the echoed header value is escaped before it becomes response text")
-        else:
-            chk.violation("C05.errtext", r, K.short(r, 70), f"{raw_hdr[0]}.encode('ascii', 'backslashreplace').decode('ascii')",
-                          "the Expect header value is echoed verbatim into the 417 text: header bytes that are not UTF-8 arrive as lone surrogates, Response(text=...) raises UnicodeEncodeError while the error is being built and the connection is dropped without any response (`Expect: 100-continu\\xff`)")
+    def tainted(fn, e, defs, at):
+        """e mentions a header value: headers.get(...) / headers[...] directly, or a local whose reaching definition does"""
+        if any(isinstance(x, (ast.Call, ast.Subscript)) and "headers" in norm.raw(x) for x in ast.walk(e)):
+            return True
+        anc = set()
+        cur = at
+        while cur is not None:
+            anc.add(id(cur))
+            cur = getattr(cur, "parent", None)
+        for x in [x for x in ast.walk(e) if isinstance(x, ast.Name)]:
+            # the last definition above the raise in an enclosing block is the one that reaches it
+            cand = [(d, v) for d, v in defs.get(x.id, []) if v is not None and getattr(d, "lineno", 0) < at.lineno and id(getattr(d, "parent", None)) in anc]
+            if cand:
+                v = max(cand, key=lambda dv: dv[0].lineno)[1]
+                if "headers" in norm.raw(v) and "backslashreplace" not in norm.raw(v):
+                    return True
+        return False
+
+    n_echo = 0
+    for fn, what in ((repo.func(UD_, "_default_expect_handler"), "the Expect header value is echoed verbatim into the 417 text"),
+                     (repo.func("aiohttp/web_ws.py", "WebSocketResponse._handshake"), "an Upgrade / Connection / Sec-WebSocket-* header value is echoed verbatim into the 400 text")):
+        defs = norm.fn_defs(fn.node).defs
+        for r, cname in K.raises_in(fn):
+            call = r.exc if isinstance(r.exc, ast.Call) else None
+            if call is None or not any(k.arg == "text" for k in call.keywords):
+                continue
+            txt = next(k.value for k in call.keywords if k.arg == "text")
+            bad = []
+            for js in [j for j in ast.walk(txt) if isinstance(j, ast.JoinedStr)]:
+                bad += [v for v in js.values if isinstance(v, ast.FormattedValue) and v.conversion not in (114, 97) and tainted(fn, v.value, defs, r)]
+            for bo in [b for b in ast.walk(txt) if isinstance(b, ast.BinOp) and isinstance(b.op, ast.Mod) and isinstance(b.left, ast.Constant) and isinstance(b.left.value, str)]:
+                if tainted(fn, bo.right, defs, r) and "%s" in bo.left.value:
+                    bad.append(bo)
+            n_echo += 1
+            if not bad:
+                chk.ok("C05.errtext", r, f"{cname} in {fn.qualname}: an echoed header value is escaped (!r / backslashreplace) before it becomes response text")
+            else:
+                chk.violation("C05.errtext", r, K.short(r, 70), "{value!r}  or  value.encode('ascii', 'backslashreplace').decode('ascii')",
+                              what + ": header bytes that are not UTF-8 arrive as lone surrogates, Response(text=...) raises UnicodeEncodeError while the error is being built and the connection is dropped without any response")
+    chk.expect_count("C05.errtext", n_echo, 5, "HTTPException(text=...) raise sites in the Expect handler and the WebSocket handshake")
+    # any other HTTPException text (handlers, request.json()) that cannot be encoded is still answered: _handle_request renders it escaped
+    hreq = repo.func(PROTO, f"{RH}._handle_request")
+    hx = [h for t in ast.walk(hreq.node) if isinstance(t, ast.Try) for h in t.handlers if PC.handler_types(h) == ["HTTPException"]]
+    built = [c for h in hx for c in ast.walk(h) if isinstance(c, ast.Call) and norm.raw(c.func) == "Response" and any(k.arg == "text" for k in c.keywords)]
+    guarded = []
+    for c in built:
+        cur = c
+        while getattr(cur, "parent", None) is not None and cur.parent not in hx:
+            par = cur.parent
+            if isinstance(par, ast.Try) and cur in par.body:
+                for h in par.handlers:
+                    if set(PC.handler_types(h)) & {"UnicodeEncodeError", "UnicodeError", "ValueError", "Exception"} and any(
+                            isinstance(k, ast.Constant) and k.value in ("backslashreplace", "replace", "xmlcharrefreplace", "namereplace", "ignore") for k in ast.walk(h)) and any(
+                            isinstance(k, ast.Call) and norm.raw(k.func) == "Response" for k in ast.walk(h)):
+                        guarded.append(c)
+            cur = par
+    if built and guarded:
+        chk.ok("C05.errtext", guarded[0], "_handle_request(): when the HTTPException text cannot be encoded (UnicodeEncodeError) the response is built again from an escaped rendering")
+    else:
+        chk.violation("C05.errtext", hreq, "resp = Response(status=exc.status, reason=exc.reason, text=exc.text, headers=exc.headers)", "except UnicodeEncodeError: text = text.encode('ascii', 'backslashreplace').decode('ascii')",
+                      "an HTTPException whose text echoes an undecodable request value (lone surrogates) makes Response(text=...) raise inside the except clause: the error escapes _handle_request() and the connection is dropped without a response")
+    # ---- C05.outcome.payload: a malformed request body found while the handler reads it is the client's error ---------------------------------
+    e400 = [c for c, _b in K.exprs(hreq, "self.handle_error($R, 400, ...)")]
+    ok400 = [c for c in e400 if PC.has_lit(PC.pc(c), "isinstance($E, RequestPayloadError)", True) is not None]
+    if ok400:
+        chk.ok("C05.outcome.payload", ok400[0], "_handle_request(): RequestPayloadError (bad chunk size, undecodable content coding seen by request.read()) -> handle_error(400)")
+    else:
+        chk.violation("C05.outcome.payload", hreq, "except Exception as exc: resp = self.handle_error(request, 500, exc)", "if isinstance(exc, RequestPayloadError) and isinstance(exc.__cause__, HttpProcessingError): self.handle_error(request, 400, ...)",
+                      "the same malformed body is answered 400 when it arrives with the head and 500 Internal Server Error when it arrives after the handler started reading")
     # ---- C05.once.nobody: enable_compression() on a response without a body does not fail while the response is being sent ---------------------
     WRESP_ = "aiohttp/web_response.py"
     dc = repo.func(WRESP_, "Response._do_start_compression")
